@@ -573,8 +573,33 @@ package yang
 // Process is outside the subset (reflection through ToEntry). Assumed: it
 // never removes or replaces a module that is loaded (it only adds modules that
 // imports and includes name).
-//@ func (*Modules).Process trusted
-//@   ensures ms.Modules == old(ms.Modules) && (forall k string :: old(ms.Modules[k]) != nil ==> ms.Modules[k] == old(ms.Modules[k]))
+//@ func (*Modules).Process props C18
+//@   only before:
+//@   ensures ms.Modules == old(ms.Modules) && (forall k string :: old(ms.Modules[k]) != nil ==> ms.Modules[k] == old(ms.Modules[k]))   -- not claimed (only): assumed at call sites
+//@   before[per-run-state-is-reset-before-anything-of-a-run-reads-it] (*Modules).process ms.mergedSubmodule != nil && len(ms.mergedSubmodule) == 0 && ms.entryCache != nil && len(ms.entryCache) == 0
+// C18: what a run starts from. ClearEntryCache leaves an empty cache;
+// forgetResolvedTypes (reflection over the syntax trees, assumed) writes the
+// resolved-type fields only.
+//@ func (*Modules).ClearEntryCache props C18 C01
+//@   requires ms != nil
+//@   ensures  ms.entryCache != nil && len(ms.entryCache) == 0
+//@   modifies ms.entryCache
+//@   safe
+//@ func (*Modules).forgetResolvedTypes trusted
+//@   modifies Type.YangType, Type.resolveErrs, Typedef.YangType
+// A module whose includes or imports could not all be found is not marked as
+// done: the next Process tries it again (and reports the failure again).
+//@ func (*Modules).include$1 props C18
+//@   ensures  err != nil ==> !has(ms.includes, m)
+//@   ensures  err == nil ==> has(ms.includes, m) == old(has(ms.includes, m))
+//@   modifies contents(ms.includes)
+//@ func (*Modules).include props C18
+//@   only ensures loop
+//@   ensures[a-module-that-could-not-be-completed-is-not-marked-done] err != nil ==> !has(ms.includes, m)
+//@   loop 1
+//@     invariant ms == ms0 && m == m0
+//@   loop 2
+//@     invariant ms == ms0 && m == m0
 //
 // ToEntry tests its argument against the nil interface only: a nil *Module
 // inside a Node passes that test and is dereferenced. Everything else about
